@@ -250,6 +250,17 @@ def run_real(case, positions=None, order=None, nan_key=None):
     proc = arb.ApplyRubberBand(lower_bound=case['lower'], upper_bound=case['upper'], decay_factor=case['decay'][0],
                                decay_power=case['decay'][1], base_constant=case['base'], minimum_force=case['fmin'],
                                res_min_dist=case['sep'], bond_type=case['bond_type'], selector=sel, domain_criterion=dom)
+    if (case['sep'] is None or case['bond_type'] is None) and len(case['atoms']) % 2 == 0:
+        # the processor object has been used before, on a molecule whose force field sets the residue separation and the bond
+        # type differently: what it resolves from a force field must be resolved again for every molecule
+        ff0 = ForceField(name='verif_c15_primer')
+        ff0.variables['elastic_network_res_min_dist'] = (case['ffsep'] or 2) + 2
+        ff0.variables['elastic_network_bond_type'] = 1 if case.get('ffbond') != 1 else 6
+        m0 = Molecule(force_field=ff0, nrexcl=1, meta={'moltype': 'verif_primer'})
+        for i_ in range(4):
+            m0.add_node(i_, atomname='BB', resname='ALA', resid=i_ + 1, chain='A', flag=True, position=np.array([0.3 * i_, 0.0, 0.0]))
+        m0.add_edges_from([(0, 1), (1, 2), (2, 3)])
+        proc.run_molecule(m0)
     proc.run_molecule(mol)
     got = {}
     dups = []
